@@ -225,6 +225,10 @@ func init() {
 		}
 		return nil
 	}
+	I[rtPkg+"RenderIntegralSplit"] = func(th *Thread, fn *ssa.Function, args []Value) Value {
+		th.m.renderSplit = true
+		return nil
+	}
 	I[rtPkg+"HashInjective"] = func(th *Thread, fn *ssa.Function, args []Value) Value {
 		th.m.hashInjective = true
 		return nil
@@ -284,7 +288,17 @@ func init() {
 		ts := th.m.ts
 		return ts.Bin(OpBAnd, args[0].(*Term), ts.Const(64, ^uint64(0)>>1))
 	}
-	for _, name := range []string{"Pow", "Floor", "Ceil", "Log", "Log2", "Log10", "Sqrt", "Trunc", "Mod", "Exp", "Round", "Max", "Min"} {
+	I["math.Trunc"] = func(th *Thread, fn *ssa.Function, args []Value) Value {
+		m := th.m
+		x := args[0].(*Term)
+		if x.IsConst() {
+			return m.ts.Const(64, f64bits(math.Trunc(f64(x.Val))))
+		}
+		// |x| < 2^63: the integer part is exactly representable as int64; beyond that every
+		// float64 is integral already (and so are the infinities; NaN stays NaN)
+		return m.ts.Ite(m.floatInInt64Range(x), m.ts.I2F(m.ts.F2I(x, true, 64), true, 64), x)
+	}
+	for _, name := range []string{"Pow", "Floor", "Ceil", "Log", "Log2", "Log10", "Sqrt", "Mod", "Exp", "Round", "Max", "Min"} {
 		name := name
 		I["math."+name] = func(th *Thread, fn *ssa.Function, args []Value) Value {
 			m := th.m
@@ -594,11 +608,16 @@ func init() {
 		return Str{C: strconv.Itoa(int(t.Signed()))}
 	}
 	I["strconv.FormatInt"] = func(th *Thread, fn *ssa.Function, args []Value) Value {
+		m := th.m
 		t, b := args[0].(*Term), args[1].(*Term)
-		if !t.IsConst() || !b.IsConst() {
-			th.m.unsupported("strconv.FormatInt of a symbolic value")
+		if t.IsConst() && b.IsConst() {
+			return Str{C: strconv.FormatInt(t.Signed(), int(b.Signed()))}
 		}
-		return Str{C: strconv.FormatInt(t.Signed(), int(b.Signed()))}
+		if b.IsConst() && b.Val == 10 {
+			return m.intToken(t) // decimal digits of a symbolic integer: a rendering token
+		}
+		m.unsupported("strconv.FormatInt of a symbolic value in a base other than 10")
+		return nil
 	}
 	I["fmt.Sprintf"] = func(th *Thread, fn *ssa.Function, args []Value) Value {
 		return th.m.sprintf(th, args[0].(Str), args[1].(Slice))
@@ -993,6 +1012,19 @@ func (m *Machine) sprintfSymbolic(th *Thread, format string, args Slice) Value {
 				out = th.strConcat(out.(Str), sub.(Str))
 				continue
 			}
+			// With verifrt.RenderIntegralSplit(): "%.Nf" of a float that is integral and fits int64 is
+			// the decimal digits of that integer, a point and N zeros (a fact about strconv that is
+			// part of the trusted base); the case split is a solver-decided fork.
+			if k, _ := scalarOf(itf.T); m.renderSplit && verb == 'f' && k.float && k.w == 64 && len(spec) >= 2 && spec[0] == '.' {
+				if n, err := strconv.Atoi(spec[1:]); err == nil && n >= 1 {
+					integral := m.ts.And(m.floatInInt64Range(v), m.ts.FCmp(OpFEq, v, m.ts.I2F(m.ts.F2I(v, true, 64), true, 64)))
+					if m.decide(integral) {
+						out = th.strConcat(out.(Str), m.intToken(m.ts.F2I(v, true, 64)))
+						out = th.strConcat(out.(Str), Str{C: "." + strings.Repeat("0", n)})
+						continue
+					}
+				}
+			}
 			// symbolic number: opaque rendering identified by (spec, verb, term)
 			arg := m.ts.ZExt(m.boolToBV(v), 64)
 			ln := m.ts.UF("uf_fmtlen_"+sanitizeName(spec+string(verb)), 64, arg)
@@ -1004,6 +1036,22 @@ func (m *Machine) sprintfSymbolic(th *Thread, format string, args Slice) Value {
 		m.unsupported(fmt.Sprintf("fmt verb %%%s%c on %T", spec, verb, itf.V))
 	}
 	return out
+}
+
+// floatInInt64Range: |x| < 2^63 (false for NaN and the infinities).
+func (m *Machine) floatInInt64Range(x *Term) *Term {
+	lim := m.ts.Const(64, f64bits(9223372036854775808.0))
+	return m.ts.And(m.ts.FCmp(OpFLt, x, lim), m.ts.FCmp(OpFLt, m.ts.FNeg(lim), x))
+}
+
+// intToken: the decimal rendering of a symbolic integer as an uninterpreted token.
+func (m *Machine) intToken(t *Term) Str {
+	arg := t
+	if t.W < 64 {
+		arg = m.ts.SExt(t, 64)
+	}
+	ln := m.ts.UF("uf_intlen", 64, arg)
+	return Str{Opaque: &OpaqueStr{Len: ln, Segs: []Seg{{ID: fmt.Sprintf("int(n%d)", arg.id), Tok: m.ts.UF("uf_inttok", 64, arg), Len: ln}}}}
 }
 
 func (m *Machine) boolToBV(t *Term) *Term {
